@@ -7,6 +7,8 @@ func init() {
 	rt.Register("Self_Bytes", Self_Bytes)
 	rt.Register("Self_Ints", Self_Ints)
 	rt.Register("Self_Sort", Self_Sort)
+	rt.Register("Self_Twin", Self_Twin)
+	rt.Register("Self_Overflow", Self_Overflow)
 }
 
 func classify(b byte) int {
@@ -63,4 +65,22 @@ func Self_Sort() {
 		rt.Assert(l[i-1] <= l[i], "sorted")
 	}
 	rt.ObsInt("len", len(l))
+}
+
+// Self_Twin: a reachability twin — its final assertion is false, so the engine
+// must report a violation and the native replay must reproduce it.
+func Self_Twin() {
+	a := rt.Byte("in")
+	rt.Assume(a >= 'a' && a <= 'c')
+	x := rt.Int("x")
+	rt.Assume(x > 10 && x < 20)
+	rt.ObsInt("x", x)
+	rt.Assert(false, "twin")
+}
+
+// Self_Overflow: the solver must find the one wrapping case.
+func Self_Overflow() {
+	x := rt.Int("x")
+	rt.Assume(x > 0)
+	rt.Assert(x+1 > x, "no-wrap") // false exactly for MaxInt64
 }
